@@ -65,6 +65,7 @@ class Interp:
         self.isize_max = (1 << (self.ptr_bits - 1)) - 1
         self.deadline = None
         self.loop_invs = []
+        self.cur_state = None
 
     # ------------------------------------------------------------------ regions / fresh values
     def new_region(self, st, name, kind='input', min_len=0, elem=1):
@@ -162,6 +163,11 @@ class Interp:
     def ob(self, kind, frame, loc, role, ok, detail='', macros=None, extra=None):
         if self.silent:
             return
+        dbg = self.opts.get('debug')
+        if dbg and not ok and dbg in f"{kind}:{loc}" and self.cur_state is not None:
+            print(f"--- DEBUG failing {kind} at {loc} ({role}) in {frame.inst.key}: {detail}", file=sys.stderr)
+            print(f"    stack: {self.stack}", file=sys.stderr)
+            print(f"    store: {self.cur_state.store}", file=sys.stderr)
         self.obs.append(Ob(kind, frame.inst, loc, role, ok, detail, self.root, macros, extra))
 
     def note(self, msg):
@@ -916,7 +922,7 @@ class Interp:
                     returns.append(ns)
                 continue
             if len(states) > STATES_CAP:
-                states = [self.merge(fr, b, states)]
+                states = self.merge_by_shape(fr, b, states)
             for s in states:
                 for nb, ns in self.exec_block(fr, b, s):
                     route(nb, ns)
@@ -945,6 +951,7 @@ class Interp:
         return out
 
     def exec_stmt(self, fr, st, s):
+        self.cur_state = st
         k = s['k']
         if k == 'assign':
             loc = s['loc']
@@ -1007,6 +1014,7 @@ class Interp:
             self.ob(kind, fr, loc, role, not sat, 'panic site reachable' if sat else 'unreachable (state unsatisfiable)', macros)
 
     def exec_term(self, fr, b, st, t):
+        self.cur_state = st
         k = t['k']
         inst = fr.inst
         if k == 'goto':
@@ -1172,7 +1180,7 @@ class Interp:
         return out
 
     # ------------------------------------------------------------------ loops and merging
-    from .loops import exec_loop, merge, live_locations
+    from .loops import exec_loop, merge, live_locations, merge_by_shape
 
 
 def sym(s):
